@@ -39,6 +39,8 @@ def configs(quick):
         ('fut-1m-d5m-2sym', 'futures', '1m', [(0, '5m'), (1, '5m')], True, False, False, m5),
         ('fut-15m-d3m-fast', 'futures', '15m', [(0, '3m')], False, False, True, b3),
         ('fut-15m-d3m', 'futures', '15m', [(0, '3m')], False, False, False, b3),
+        ('fut-3m-2sym-fast', 'futures', '3m', [], True, False, True, b3),
+        ('fut-1m-2sym-fast', 'futures', '1m', [(1, '3m')], True, False, True, ('minutes', ['U1', 'D2w', 'GU'], 5)),
     ]
     if not quick:
         m6 = ('minutes', ['U1', 'D1', 'U2w', 'D2w', 'GU', 'GD', 'DOJI', 'FLAT'], 5)
